@@ -691,6 +691,18 @@ class CallMixin:
             n.extra["starkw"] = self.res(kw["**"], st)
         if cat == "view" and pos:
             n.extra["view_of"] = pos[0]
+        if "out" in kw and "where" in kw and self.res(kw["out"], st).op not in ("Const", "Tuple"):
+            # ufunc(x, out=o, where=m): o keeps its previous contents where m is False
+            tgt = kw["out"]
+            keep = [k for k in kwn if k not in ("out", "where")]
+            pargs = [fn] + [self.freeze(p, st) for p in P] + [self.freeze(self.res(kw[k], st), st) for k in keep]
+            pure = self.mk("Call", pargs, (q, len(P), tuple(keep), serial), site)
+            pure.extra = {"cat": cat}
+            new = self.mk("Scatter", (self.res(tgt, st), self.res(kw["where"], st), pure), None, site)
+            self.effect("write", site, st, fr, node=tgt, roots=self.roots(tgt), idx=self.res(kw["where"], st),
+                        value=pure, how="out=,where=", new=new)
+            st.cur[tgt.id] = new
+            return tgt
         if "out" in kw:
             tgt = kw["out"]
             self.effect("write", site, st, fr, node=tgt, roots=self.roots(tgt), idx=None,
